@@ -69,10 +69,16 @@ def verify_function(task):
                     except Undecided:
                         return ex.spec(text, rst)
                 if rec.exc is not None:
+                    for j, p in enumerate(c.ensures_on_raise.get(rec.exc, [])):
+                        # state in which the exception leaves the function (what a finally block must have restored)
+                        g = lit(ex.spec(p, rst))
+                        res.obls.append(Obl(f"{qual}:post-on-raise[{rec.exc}#{j}@{rec.line}#{i}]", "post", ex.ax + rst.pc, g, qual, rec.line, p))
                     if rec.exc in c.raises:
                         g = raise_cond(c.raises[rec.exc])
                         res.obls.append(Obl(f"{qual}:raises[{rec.exc}@{rec.line}#{i}]", "raises", ex.ax + rst.pc, g, qual, rec.line,
                                             c.raises[rec.exc]))
+                    elif rec.exc in c.ensures_on_raise and rec.exc not in c.raises_only_if:
+                        pass          # an exception the contract allows, with a postcondition on the state it leaves
                     elif rec.exc in c.raises_only_if:
                         g = raise_cond(c.raises_only_if[rec.exc])
                         res.obls.append(Obl(f"{qual}:raises-only-if[{rec.exc}@{rec.line}#{i}]", "raises", ex.ax + rst.pc, g, qual, rec.line,
